@@ -570,6 +570,10 @@ def run(tier, replay=None):
     if replay:
         with open(replay) as fh:
             c = verdict.unhex_json(json.load(fh))["case"]
+        if c.get("phase") == "concurrent-independent-use":
+            import mtindep
+            mtindep.replay(run_, c, S.counters)
+            return run_.finish(10, 1, RULE)
         ops = [tuple(o) for o in c["ops"]]
         if c.get("build") == "plain":
             exe = build.build_exe("plain", ["envdl.cpp"], ["src/env/get.cpp"],
@@ -599,6 +603,9 @@ def run(tier, replay=None):
     sec = {}
     if not replay:
         sec = secure_exec_phase(run_, S, run_.seed)
+        # libraries opened, used and closed by 2-16 threads at once (each thread its own objects); env reads
+        import mtindep
+        mtindep.phase(run_, "dl", tier, S.counters)
     for key, what, case in S.viol:
         run_.violation(key, what, case)
     if S.counters.get("cases-skipped-after-enough-failed-cases", 0) and not S.viol:
